@@ -291,6 +291,9 @@ func (b *builder) build(s *Spec, label string) gen.V {
 	if s.Title && s.ConcreteTitle == "" {
 		f["Title"] = absint.HoleStr(b.atom(s, "RawStr", "title", true))
 	}
+	if s.Title && s.ConcreteTitle != "" {
+		f["Title"] = absint.Lit(s.ConcreteTitle) // the title lives on the (root) type node
+	}
 	for _, kw := range s.Kw {
 		switch kw {
 		case "minLength":
